@@ -166,7 +166,7 @@ CHECK = {
     "nontrivial": nontrivial,
     "classify": classify,
     "exhaustive": {"quick": False, "thorough": False},
-    "rule": ("every insert/remove history of length <=3 (thorough: 4) over 5 nested names (root, a, b.a, c.b.a, d.a) "
+    "rule": ("every insert/remove history of length <=3 (thorough: 4) over 5 nested names (root, a, b.a, c.b.a, d.a) [random universes also use labels that differ only in bit 5 without being letter pairs, z/Z] "
              "followed by lookup+get probes of every name, plus seeded random histories (<=60 steps, 3 classes, nested "
              "names with empty non-terminals, mixed case, SingleZoneCatalog probes); after EVERY insert/remove the whole "
              "sorted iteration is compared; non-trivial = a removal returned an entry while other entries remained; "
